@@ -35,6 +35,7 @@ func runC07(c *core.Ctx) {
 	c.Rule("C07.tm", "A2/A6: stopTask removes the task from tm.tasks and detaches it (delFork / delete batches) before et.stop(); delFork closes the fork edge with Close, never Abort; Close drains (Drain) before stopping tasks; StopTask/DeleteTask/StopTasks/Close hold tm.mu around stopTask")
 	c.Rule("C07.stopf", "A6 effect disjointness: for every node type that assigns node.stopF and whose run path reads an input edge, no object torn down by the stop function (Abort/Close/Stop/Kill method or close() on a field of the node) is used by the node's consuming path (run function, receiver callbacks, group receivers, transitively in the package); reviewed exceptions are verified structurally")
 	c.Rule("C07.sink", "A1/A2: InfluxDBOutNode: the write buffer is flushed and then aborted after the consumer returned (deferred after start() or placed after Consume), flush before abort; writeBuffer.run answers a flush request with writeAll and then the flushed signal; writeAll attempts every pending batch (no early exit) and forgets it; enqueue blocks on the queue unless the buffer is stopping (no default arm)")
+	c.Rule("C07.tickers", "A2: a helper goroutine that its owner's Stop() waits for (wg.Wait) never blocks on a bare channel send: in every ticker implementation (Start/Stop/Next) each send inside the goroutine started by Start is an arm of a select that also receives from the channel Stop closes")
 	c.Rule("C07.handlers", "A6 (shared with C09): Topic.removeHandler/close and Topics.Close/DeleteTopic end handlers with bufHandler.Close; bufHandler.Close closes events and waits; run() delivers every buffered event before returning on the closed channel")
 
 	root := c.P.Pkg("")
@@ -51,6 +52,7 @@ func runC07(c *core.Ctx) {
 	c07TM(c, root)
 	c07StopF(c, root)
 	c07Sink(c, root)
+	c07Tickers(c, root)
 	c09CloseAs(c, alertPkg, "C07.handlers")
 	c09BufferAs(c, alertPkg, "C07.handlers")
 	if fn := c.Need("C07.handlers", "alert", "bufHandler", "Close"); fn != nil {
@@ -1019,4 +1021,84 @@ func commRecv(s ast.Stmt) ast.Expr {
 		return u.X
 	}
 	return ast.NewIdent("?")
+}
+
+func c07Tickers(c *core.Ctx, pkg *packages.Package) {
+	info := pkg.TypesInfo
+	n := 0
+	sc := pkg.Types.Scope()
+	for _, name := range sc.Names() {
+		tn, ok := sc.Lookup(name).(*types.TypeName)
+		if !ok {
+			continue
+		}
+		start := c.P.FindFunc("", name, "Start")
+		stop := c.P.FindFunc("", name, "Stop")
+		if start == nil || stop == nil || c.P.FindFunc("", name, "Next") == nil {
+			continue
+		}
+		_ = tn
+		// channels closed by Stop, and does Stop wait?
+		closed := map[string]bool{}
+		waits := false
+		ast.Inspect(stop.Decl.Body, func(nd ast.Node) bool {
+			if call, ok := nd.(*ast.CallExpr); ok {
+				if core.IsBuiltin(info, call, "close") {
+					if sel, ok := ast.Unparen(call.Args[0]).(*ast.SelectorExpr); ok {
+						closed[sel.Sel.Name] = true
+					}
+				}
+				if f := core.Callee(info, call); f != nil && f.Name() == "Wait" && core.RecvTypeName(f) == "WaitGroup" {
+					waits = true
+				}
+			}
+			return true
+		})
+		n++
+		if !waits {
+			c.Ok("C07.tickers", name+".Start")
+			continue
+		}
+		parents := parentMap(start.Decl.Body)
+		good := true
+		sends := 0
+		ast.Inspect(start.Decl.Body, func(nd ast.Node) bool {
+			g, ok := nd.(*ast.GoStmt)
+			if !ok {
+				return true
+			}
+			ast.Inspect(g, func(m ast.Node) bool {
+				send, ok := m.(*ast.SendStmt)
+				if !ok {
+					return true
+				}
+				sends++
+				guarded := false
+				if cc, ok := parents[send].(*ast.CommClause); ok && cc.Comm == send {
+					if sel, ok := parents[parents[cc]].(*ast.SelectStmt); ok {
+						for _, st := range sel.Body.List {
+							oc := st.(*ast.CommClause)
+							if oc == cc || oc.Comm == nil {
+								continue
+							}
+							if rs, ok := ast.Unparen(commRecv(oc.Comm)).(*ast.SelectorExpr); ok && closed[rs.Sel.Name] {
+								guarded = true
+							}
+						}
+					}
+				}
+				if !guarded {
+					good = false
+					c.Fail("C07.tickers", name+".Start#bare-send", send.Pos(), "the goroutine of %s sends a tick on %s outside a select with the channel Stop() closes: once the consumer is gone (doQuery returned because its edge was aborted) the goroutine blocks forever, %s.Stop() waits for it forever, and with it stopBatch, ExecutingTask.stop and StopTask under the task master lock", name, types.ExprString(send.Chan), name)
+				}
+				return true
+			})
+			return false
+		})
+		if good {
+			c.Ok("C07.tickers", name+".Start")
+		}
+		_ = sends
+	}
+	c.Floor("C07.tickers", "ticker implementations", n, 2)
 }
